@@ -1,4 +1,5 @@
 import SeqVerif.Model.BulkTime
+import SeqVerif.Model.BulkConfig
 import SeqVerif.Extracted.C10T
 /-!
 # C10 - hand models = mechanical translations of the Go source (regenerated on every run)
@@ -27,5 +28,17 @@ theorem c10_t_documentDelayed (d p f : Int) (hf : I64 f) : documentDelayedRepair
 
 /-- non-vacuity: the domain contains the configured default drifts -/
 example : I64 300000000000 := by unfold I64; omega
+
+/-- `IngestorConfig.setDefaults()` = `Bulk.setDefaults` at the repository's three defaults: the translated function
+returns exactly the fields the Go function writes - search timeout, export timeout, max in-flight bulks - so the two
+drift settings are not among them (`setDefaults_drifts`); a zero value is replaced, anything else is kept -/
+theorem c10_t_setDefaults (c : SV.Bulk.ProxyCfg) :
+    T.IngestorConfig_setDefaults c.searchTimeout c.exportTimeout c.maxInflightBulks
+      = ((SV.Bulk.setDefaults 30000000000 120000000000 32 c).searchTimeout,
+         (SV.Bulk.setDefaults 30000000000 120000000000 32 c).exportTimeout,
+         (SV.Bulk.setDefaults 30000000000 120000000000 32 c).maxInflightBulks) := by
+  unfold T.IngestorConfig_setDefaults SV.Bulk.setDefaults
+  by_cases h1 : c.searchTimeout = 0 <;> by_cases h2 : c.exportTimeout = 0 <;> by_cases h3 : c.maxInflightBulks = 0 <;>
+    simp [h1, h2, h3]
 
 end SV.Props.C10
